@@ -26,7 +26,7 @@ try:
     # demos were written against /tmp/sb/Cxx: point them at the scratch worktree
     src = open(os.path.join(WT, "_demo.py")).read()
     import re
-    src = re.sub(r"/tmp/sb/C\d\d", WT, src)
+    src = re.sub(r"/tmp/sb\d*/C\d\d", WT, src)
     open(os.path.join(WT, "_demo.py"), "w").write(src)
     r = sh(f"/venv/bin/python _demo.py", cwd=WT, env=env, timeout=600)
     res["demo_unpatched_rc"] = r.returncode
